@@ -249,7 +249,62 @@ func normalised(fact string) bool {
 	return false
 }
 
-// lost: scalars of the input configuration that the first dump no longer has.
+// schema of v2.MOSNConfig as JSON key paths, read off the struct tags only (never through the (Un)MarshalJSON
+// methods under test): exact scalar paths, and prefixes below which everything is kept as is (untyped holes, maps).
+var schemaPaths, schemaOpaque = func() (map[string]bool, []string) {
+	paths := map[string]bool{}
+	var opaque []string
+	var walk func(t reflect.Type, path string, depth int)
+	walk = func(t reflect.Type, path string, depth int) {
+		if depth > 25 {
+			return
+		}
+		if isHole(t) || t == rawType {
+			opaque = append(opaque, path)
+			return
+		}
+		if t.PkgPath() != "" && t.PkgPath() != v2Pkg {
+			paths[path] = true
+			return
+		}
+		switch t.Kind() {
+		case reflect.Ptr, reflect.Slice, reflect.Array:
+			walk(t.Elem(), path, depth+1)
+		case reflect.Map:
+			opaque = append(opaque, path)
+		case reflect.Struct:
+			for i := 0; i < t.NumField(); i++ {
+				f := t.Field(i)
+				if f.Anonymous && f.Tag.Get("json") == "" {
+					walk(f.Type, path, depth+1)
+					continue
+				}
+				if k, ok := jsonKey(f); ok {
+					walk(f.Type, path+"."+strings.ToLower(k), depth+1)
+				}
+			}
+		default:
+			paths[path] = true
+		}
+	}
+	walk(reflect.TypeOf(v2.MOSNConfig{}), "", 0)
+	return paths, opaque
+}()
+
+// understood: the JSON key path is one MOSN's config types declare.
+func understood(path string) bool {
+	if schemaPaths[path] {
+		return true
+	}
+	for _, p := range schemaOpaque {
+		if path == p || strings.HasPrefix(path, p+".") {
+			return true
+		}
+	}
+	return false
+}
+
+// lost: scalars of the input configuration, at paths MOSN understands, that the first dump no longer has.
 func lost(c *hx.Ctx, kind string, orig []byte, d1 []byte) int {
 	var a, b interface{}
 	da := json.NewDecoder(bytes.NewReader(orig))
@@ -265,7 +320,7 @@ func lost(c *hx.Ctx, kind string, orig []byte, d1 []byte) int {
 	flatten(b, "", fb)
 	n := 0
 	for f := range fa {
-		if !fb[f] && !normalised(f) {
+		if !fb[f] && understood(f[:strings.LastIndex(f, "=")]) && !normalised(f) {
 			n++
 			c.Count(kind + ".lost=" + f[:strings.LastIndex(f, "=")])
 		}
@@ -291,13 +346,7 @@ func roundTrip(c *hx.Ctx, path, tmp, kind string) string {
 		c.Count(kind + ".unloadable=" + why)
 		return "unloadable:" + why
 	}
-	// what MOSN's own types understand of the input: the input through one pure decode / encode of v2.MOSNConfig
-	understood := []byte(nil)
-	pure := &v2.MOSNConfig{}
-	if json.Unmarshal(readJSON(path), pure) == nil {
-		understood, _ = json.Marshal(pure)
-	}
-	nlost := lost(c, kind, understood, d1)
+	nlost := lost(c, kind, readJSON(path), d1)
 	p2 := filepath.Join(tmp, "dump1.json")
 	ioutil.WriteFile(p2, d1, 0644)
 	d2, why := loadDump(p2)
